@@ -48,6 +48,7 @@ def build(n, cls, case):
 
 
 def run_item(item):
+    item.cross_check = True      # thorough tier: discharged obligations are re-decided by cvc5
     pm = load_repo()
     prm = item.params
     n, cls, case = prm["n"], prm["cls"], prm["case"]
